@@ -1464,11 +1464,26 @@ def _p_arange(I, args, kw, node):
     return ("app", "arange", tuple(args))
 
 
+def _dtype_visible(I, d):
+    """A dtype argument stays in the term unless it is a statically named integer dtype inside a
+    Problem / utility (state vectors): buffers whose dtype follows a runtime value silently cast
+    what is stored into them."""
+    static_int = (d[0] == "mod" and d[1].split(".")[-1] in ("int32", "int64", "int16", "int8", "uint8", "uint32", "int_", "bool_")) or d in (("builtin", "int"), ("builtin", "bool"))
+    in_problem = I.cls is None or any(k.name in ("Problem", "BatchProcessor") for k in I.ct.mro(I.cls))
+    return not (static_int and in_problem) and not (in_problem and d[0] == "app" and d[1] == "dtype")
+
+
 def _p_zeros(I, args, kw, node):
+    d = kw.get("dtype", args[1] if len(args) > 1 else None)
+    if d is not None and _dtype_visible(I, d):
+        return ("app", "zeros", (args[0], ("kw", "dtype", d)))
     return ("app", "zeros", (args[0],))
 
 
 def _p_zeros_like(I, args, kw, node):
+    extra = tuple(("kw", k, v) for k, v in sorted(kw.items()) if not (k == "dtype" and not _dtype_visible(I, v)))
+    if extra:
+        return ("app", "zeros_like", (args[0],) + extra)
     return ZERO
 
 
